@@ -527,7 +527,15 @@ def aggregate(prop, tier, seed, results, t_start, write_baseline, extra_mod, qui
             failures.append((oid, q, shp, 'native', dict(w, found_by='native cross-check of a modularly proved shape', note=why)))
             obligations.append({'id': oid, 'verdict': 'refuted', 'backend': 'bounded-native', 'seconds': 0, 'kind': 'public', 'reason': why})
         else:
-            checker_errors.append(f'UNSOUND: {q}[{shp}] was proved but fails natively on {w.get("inputs")}')
+            # every contract the proof relied on is established, yet the real code fails the executable contract on a real input.
+            # A real failing input is a violation whatever the prover said; what the symbolic proof cannot see is state outside
+            # its model (memoisation is interpreted as the identity, so a cache keyed too coarsely shows only natively, through
+            # the order in which the sampled inputs are evaluated).  The evidence keeps the suspicion of an engine fault visible.
+            oid = obligation_id(prop, q, shp, 'native')
+            why = 'proved symbolically but fails natively: state outside the model (call history / memoisation) or an engine fault'
+            failures.append((oid, q, shp, 'native', dict(w, found_by='native cross-check of a proved shape', note=why)))
+            obligations.append({'id': oid, 'verdict': 'refuted', 'backend': 'bounded-native', 'seconds': 0, 'kind': 'public', 'reason': why})
+            explained.append(f'{q}[{shp}] proved but fails natively on {w.get("inputs")}: reported as a violation')
     # ---- known findings
     lines = []
     violations = []
